@@ -217,6 +217,22 @@ var c07Containers = append(append([]containerKind{}, containers...), containerKi
 		return &gen.Doc{B: append(pre, t.B...)}
 	}})
 
+func init() {
+	// a TIFF block in the CR2 layout ("CR" 2 0 at bytes 8..11, first directory at 16): the marker bytes are the same in
+	// both byte orders, so is the classification
+	c07Containers = append(c07Containers, containerKind{
+		name: "CR2 layout", imageType: "image/x-canon-cr2", nSurround: 1,
+		entries: []entryPoint{{"imagemeta.Decode", imagemeta.Decode}, {"imagemeta.DecodeCR2", imagemeta.DecodeCR2}, {"exif2.Parse", exif2Parse}},
+		build: func(rec *gen.Rec, lay gen.Layout, bo binary.ByteOrder, s int) *gen.Doc {
+			if lay.FirstIFD < 16 {
+				lay.FirstIFD = 16
+			}
+			d := gen.EncodeTIFF(rec, lay, bo, gen.AllDirs)
+			copy(d.B[8:], []byte{'C', 'R', 2, 0, 0, 0, 0, 0})
+			return d
+		}})
+}
+
 func c07Harness(x *mc.Exec) {
 	pristine()
 	ci := x.All("container", len(c07Containers))
